@@ -292,7 +292,12 @@ func runCheck(p property, tier string, seed int64, workers int) int {
 				cmd.Start()
 				done := make(chan error, 1)
 				go func() { done <- cmd.Wait() }()
-				// wall-clock back-stop: no progress for a long time
+				// wall-clock back-stop: no progress for a long time. One C08 case is hundreds of simulations plus two
+				// child processes, which on a loaded machine can take longer than 300 s without being stuck.
+				watchdog := 300 * time.Second
+				if id == "C08" {
+					watchdog = 1800 * time.Second
+				}
 				lastSize, lastChange := int64(-1), time.Now()
 				hung := false
 			waitLoop:
@@ -303,7 +308,7 @@ func runCheck(p property, tier string, seed int64, workers int) int {
 					case <-time.After(2 * time.Second):
 						if st, err := os.Stat(out); err == nil && st.Size() != lastSize {
 							lastSize, lastChange = st.Size(), time.Now()
-						} else if time.Since(lastChange) > 300*time.Second {
+						} else if time.Since(lastChange) > watchdog {
 							hung = true
 							cmd.Process.Signal(os.Interrupt)
 							time.Sleep(200 * time.Millisecond)
@@ -322,7 +327,7 @@ func runCheck(p property, tier string, seed int64, workers int) int {
 				tail := tailFile(errf, 30)
 				mu.Lock()
 				if hung {
-					agg.Inconclusive = append(agg.Inconclusive, fmt.Sprintf("case %d: no progress for 300 s of wall-clock (back-stop watchdog); worker killed", lastB))
+					agg.Inconclusive = append(agg.Inconclusive, fmt.Sprintf("case %d: no progress for %d s of wall-clock (back-stop watchdog); worker killed", lastB, int(watchdog/time.Second)))
 				} else if lastB >= 0 {
 					agg.Findings = append(agg.Findings, finding{Prop: id, Class: "worker-crash", Case: lastB, Detail: "worker process died while running this case: " + firstLine(tail), Extra: tail})
 				} else {
